@@ -509,6 +509,49 @@ def f74(k, reg):
     return k
 
 
+def is_positive(x):
+    """The value must be strictly positive.
+
+    (A named condition with a docstring and no description given to the decorator.)
+    """
+    return x > 0
+
+
+@icontract.require(is_positive, enabled=True)
+def f75(x):
+    return x
+
+
+def _passes_everything_on(func):
+    """A third-party style decorator: functools.wraps, a wrapper taking (*args, **kwargs)."""
+
+    @functools.wraps(func)
+    def wrapper(*args, **kwargs):
+        return func(*args, **kwargs)
+
+    return wrapper
+
+
+@_passes_everything_on
+def _few_args(_ARGS):
+    return len(_ARGS) > 5
+
+
+@_passes_everything_on
+def _has_z(_KWARGS):
+    return "z" in _KWARGS
+
+
+@icontract.require(_few_args, enabled=True)
+def f76(*args):
+    return args
+
+
+@icontract.require(_has_z, enabled=True)
+def f77(**kwargs):
+    return kwargs
+
+
 def _long_string():
     return "".join(chr(ord("a") + (i * 7) % 26) for i in range(300))
 
@@ -589,5 +632,8 @@ CASES = [
     {"id": "c72", "fn": "f72", "args": [], "kwargs": {"x": 9}, "cond_text": "at_most"},
     {"id": "c73", "fn": "f73", "args": [], "kwargs": {"k": "a", "reg": _REG}, "hidden_exprs": ["reg.get(k)", "reg[k]", "type(k)", "reg.get", "reg.get(k)(-3)"][:3]},
     {"id": "c74", "fn": "f74", "args": [], "kwargs": {"k": "b", "reg": _REG}, "hidden_exprs": ["reg[x]", "found", "reg.get(k)"]},
+    {"id": "c75", "fn": "f75", "args": [], "kwargs": {"x": -1}, "cond_text": "is_positive"},
+    {"id": "c76", "fn": "f76", "args": [1, 2, 3], "kwargs": {}, "names_args": True},
+    {"id": "c77", "fn": "f77", "args": [], "kwargs": {"a": 1, "debug": True}, "names_kwargs": True},
     {"id": "c45", "fn": "f45", "args": [], "kwargs": {"x": 123456789012345678901234567890, "helper_fn": helper}, "a_repr": SMALL, "hidden": ["helper_fn"]},
 ]
